@@ -163,6 +163,9 @@ func valuePool() []*variants.Variant {
 		variants.VariantFromArray([]*variants.Variant{variants.VariantFromDateTime(time.Unix(1614834367, 0).UTC()), variants.VariantFromDouble(math.Copysign(0, -1))}),
 		// the zero time.Time (0001-01-01T00:00:00Z) and its Unix second count
 		variants.VariantFromDateTime(time.Time{}), variants.VariantFromLong(-62135596800), mk(-62135596800), variants.VariantFromLong(-62135596799),
+		// numeric strings that are decimal only: zero-padded, signed, with a base prefix, with separators, with blanks
+		variants.VariantFromString("010"), variants.VariantFromString("-017"), variants.VariantFromString("0x10"), variants.VariantFromString("0b11"), variants.VariantFromString("+5"),
+		variants.VariantFromString("1_000"), variants.VariantFromString(" 7"), variants.VariantFromString("0o7"), variants.VariantFromString("9223372036854775808"),
 	}
 }
 
